@@ -56,9 +56,9 @@ FT_TRUST = BASE_TRUST + ["SHA-256 is re-implemented in Lean for execution only (
                          "encoding/json: access lists are compared as decoded map[string]string (decoded by the harness with the chain's own json.Unmarshal)"]
 
 def genesis_runs(tier, seed):
-    profs = ["storage", "forms", "rns", "notif", "filetree"]
+    profs = ["storage", "plans", "forms", "rns", "notif", "filetree"]
     if tier == "quick":
-        return [{"profile": p, "args": [p, "-seed", str(seed * 10 + k), "-hist", "2", "-steps", "250", "-genesis"]} for k, p in enumerate(profs)]
+        return [{"profile": p, "args": [p, "-seed", str(seed * 10 + k), "-hist", "3", "-steps", "300", "-genesis"]} for k, p in enumerate(profs)]
     return [{"profile": p, "args": [p, "-seed", str(seed * 100 + k * 7 + j), "-hist", "4", "-steps", "400", "-genesis"]} for k, p in enumerate(profs) for j in range(3)]
 
 
@@ -147,12 +147,17 @@ PROPS = {
 
 # ---------------------------------------------------------------- storage properties
 
-def storage_runs(main):
+def storage_runs(main, extra=()):
     def runs(tier, seed):
         if tier == "quick":
             return [{"profile": main, "args": [main, "-seed", str(seed * 10 + 1), "-hist", "4", "-steps", "300"]},
-                    {"profile": "storage", "args": ["storage", "-seed", str(seed * 10 + 2), "-hist", "3", "-steps", "300"]}]
+                    {"profile": main, "args": [main, "-seed", str(seed * 10 + 3), "-hist", "4", "-steps", "300"]},
+                    {"profile": "storage", "args": ["storage", "-seed", str(seed * 10 + 2), "-hist", "3", "-steps", "300"]}] + \
+                   [{"profile": e, "args": [e, "-seed", str(seed * 10 + 4 + k), "-hist", "4", "-steps", "300"]} for k, e in enumerate(extra)]
         out = []
+        for k, e in enumerate(extra):
+            for j in range(4):
+                out.append({"profile": e, "args": [e, "-seed", str(seed * 100 + 70 + 4 * k + j), "-hist", "6", "-steps", "600"]})
         for k in range(10):
             out.append({"profile": main, "args": [main, "-seed", str(seed * 100 + k), "-hist", "6", "-steps", "600"]})
         for k in range(6):
@@ -196,7 +201,7 @@ def st(fields=None, ops=None, opfields=None):
 
 
 STORAGE_PROPS = {
-    "C01": dict(main="proofs", monitor=mon_storage.C01, stateful=True,
+    "C01": dict(main="proofs", extra=("forms",), monitor=mon_storage.C01, stateful=True,
                 rel=st(fields=["verify", "success"], ops=["postProof"], opfields={"block": ["files", "files2", "proofs", "bank"], "attest": ["proofs"], "postFile": ["files", "proofs"]})),
     "C02": dict(main="proofs", monitor=mon_storage.c02,
                 rel=st(fields=["verify", "challenge"], ops=["postProof"], opfields={"block": ["files", "files2", "proofs", "providers"]})),
@@ -221,7 +226,7 @@ STORAGE_PROPS = {
 for _pid, _c in STORAGE_PROPS.items():
     if os.path.exists(os.path.join(os.path.dirname(os.path.abspath(__file__)), "..", "lean", "Canine", "Props", _pid + ".lean")):
         PROPS[_pid] = {
-            "runs": storage_runs(_c["main"]), "replay_runs": replay_runs, "monitor": _c["monitor"],
+            "runs": storage_runs(_c["main"], _c.get("extra", ())), "replay_runs": replay_runs, "monitor": _c["monitor"],
             "stateful": _c.get("stateful", False), "panic_relevant": _c.get("panic", False),
             "diff_relevant": _c["rel"], "trusted_base": ST_TRUST, "assumptions": ST_ASSUME,
         }
